@@ -16,7 +16,8 @@ TRUSTED_BASE = [
     "axioms: none (Print Assumptions of every property theorem must say 'Closed under the global context'; checked on every run)",
     "translator tools/skel (Go AST -> coq/theories/Gen.v), trusted, purely syntactic",
     "extraction with ExtrOcamlBasic only (Extract Inductive bool/option/unit/list/prod/sumbool/sumor, Extract Inlined Constant andb/orb); no directive of our own; OCaml 4.13.1",
-    "Go harness (harness/cmd/*), OCaml driver (ocaml/driver.ml), Python orchestration (tools/, checks/)",
+    "Go harness (harness/cmd/*), OCaml drivers (ocaml/driver.ml, ocaml/rdriver.ml: parsing and printing only), Python orchestration (tools/, checks/)",
+    "history replay: tools/replay.py turns the hook event log into a script (trusted: the event-to-action mapping); acceptance is decided by the extracted Replay.replay using the transition system's own step function, and Replay.replay_sound (Coq) shows an accepted script yields an execution of the system",
     "modelled, not verified: Go runtime and memory model, bash, os/exec, the kernel's rename/FIFO semantics, encoding/json and regexp outside the modelled uses",
 ]
 
